@@ -111,11 +111,11 @@ UNIT = Unit('ev', [
         keep_items=lambda kind, name: (kind == 'enum' and name == 'Value') or (kind == 'impl' and name.startswith('<Value as From')),
         item_attr={'Value': '#[verifier::external_derive]'}),
     Ghost(_t('ev_prelude_trusted.rs'), name='ev_trusted'),
-    Src('context.rs', fns=CONTEXT, props=['C06', 'C07', 'C08'],
+    Src('context.rs', fns=CONTEXT, props=['C06', 'C07', 'C08', 'C01!', 'C04!'],
         keep_items=lambda kind, name: (kind == 'enum') or (kind == 'impl' and name == 'Context'),
         item_attr={'ContextValue': '#[verifier::external_derive]'}, dyn_calls=True,
         regex_rules=[('rule30_lock_guard', r'self\.0\.lock\(\)\.unwrap\(\)', 'self.vx_lock()')]),
-    Src('parser.rs', fns=EXEC, props=['C03', 'C06', 'C07', 'C08'],
+    Src('parser.rs', fns=EXEC, props=['C03', 'C06', 'C07', 'C08', 'C01!', 'C04!'],
         keep_fns=lambda k: k in EXEC_KEYS,
         keep_items=lambda kind, name: (kind == 'enum') or (kind == 'impl' and name == 'ExprAST'),
         item_attr={'Literal': '#[verifier::external_derive]', 'ExprAST': '#[verifier::external_derive]'},
